@@ -1,0 +1,71 @@
+//go:build verif
+
+// Contracts for deductive verification (govc). Comment-only file (build tag verif).
+
+package file
+
+// ---------------------------------------------------------------------------
+// C06 / C07 / C19: the injector. An area is the 1-based byte span [Start, End) of one annotated field in the file.
+
+//@ regex [C06 C19 language.rTags] rTags << `[^:]*:.*`
+//@ axiom [rTags.colon] forall(x String :: {fullMatch(rTags, x)} fullMatch(rTags, x) ==> contains(x, ":"))
+
+//@ pred area.in(a file.textArea, n) = 1 <= a.Start && a.Start <= a.End && a.End <= n + 1
+//@ pred areas.ok(as []file.textArea, n) = forall(j Int :: {as[j]} 0 <= j && j < len(as) ==> area.in(as[j], n))
+//@     && forall(j Int, k Int :: {as[j], as[k]} 0 <= j && j < k && k < len(as) ==> as[j].End <= as[k].Start)
+
+//@ func newTagItems
+//@   modifies nothing
+//@   loop#0 invariant sliceptr(items) == 0 || fresh(sliceptr(items))
+//@   ensures fresh(sliceptr(result)) || result == nil
+
+//@ func (tagItems).format
+//@   modifies nothing
+//@   loop#0 invariant sliceptr(tags) == 0 || fresh(sliceptr(tags))
+
+//@ func (tagItems).override
+//@   modifies elems(inTags)
+//@   loop#0 invariant (sliceptr(overridEd) == 0 || fresh(sliceptr(overridEd))) && sliceptr(inTags) == sliceptr(inTags$0)
+//@   loop#1 invariant (sliceptr(overridEd) == 0 || fresh(sliceptr(overridEd))) && sliceptr(inTags) == sliceptr(inTags$0)
+
+//@ func tagFromComment
+//@   modifies nothing
+
+//@ func injectTag
+//@   requires [C06 C19 inject.span] area.in(area, len(contents))
+//@   modifies nothing
+//@   ensures [C06 C19 inject.len] len(injected) >= area.Start - 1 + (len(contents) - (area.End - 1))
+//@   ensures [C06 inject.prefix] forall(i Int :: {injected[i]} 0 <= i && i < area.Start - 1 ==> injected[i] == contents[i])
+//@   ensures fresh(sliceptr(injected)) || injected == nil
+
+//@ pred fileN() = len(fs.content(inputPath))
+//@ pred areas.below(as []file.textArea, lim) = forall(j Int :: {as[j]} 0 <= j && j < len(as) ==> as[j].End <= lim)
+
+//@ func ParseFile
+//@   modifies nothing
+//@   loop#0 invariant f != nil && astnode(f) && err == nil && (sliceptr(areas) == 0 || (fresh(sliceptr(areas)) && !astnode(sliceptr(areas)))) && areas.ok(areas, len(fs.content(inputPath)))
+//@   loop#0 invariant ast.wf(1, 1 + len(fs.content(inputPath))) && areas.below(areas, ite(rangeindex >= 0, nend(unbox("Int", f.Decls[rangeindex])), 1))
+//@   loop#1 invariant f != nil && astnode(f) && err == nil && genDecl != nil && astnode(genDecl) && (sliceptr(areas) == 0 || (fresh(sliceptr(areas)) && !astnode(sliceptr(areas)))) && areas.ok(areas, len(fs.content(inputPath)))
+//@   loop#1 invariant ast.wf(1, 1 + len(fs.content(inputPath))) && areas.below(areas, npos(genDecl))
+//@   loop#2 invariant f != nil && astnode(f) && err == nil && genDecl != nil && astnode(genDecl) && structDecl != nil && astnode(structDecl) && npos(genDecl) <= npos(structDecl.Fields) && nend(structDecl.Fields) <= nend(genDecl)
+//@   loop#2 invariant ast.wf(1, 1 + len(fs.content(inputPath))) && (sliceptr(areas) == 0 || (fresh(sliceptr(areas)) && !astnode(sliceptr(areas)))) && areas.ok(areas, len(fs.content(inputPath)))
+//@   loop#2 invariant areas.below(areas, ite(rangeindex >= 0, nend(structDecl.Fields.List[rangeindex]), npos(genDecl)))
+//@   loop#3 invariant f != nil && astnode(f) && err == nil && genDecl != nil && astnode(genDecl) && structDecl != nil && astnode(structDecl) && field != nil && field.Tag != nil && (sliceptr(areas) == 0 || (fresh(sliceptr(areas)) && !astnode(sliceptr(areas))))
+//@   loop#3 invariant ast.wf(1, 1 + len(fs.content(inputPath))) && areas.ok(areas, len(fs.content(inputPath))) && areas.below(areas, npos(field)) && astfield.ok(field, 1, 1 + len(fs.content(inputPath))) && nend(field) <= nend(genDecl)
+//@   loop#3 invariant forall(k Int :: {comments[k]} 0 <= k && k < len(comments) ==> comments[k] != nil)
+//@   ensures [C06 C19 parse.areas] err == nil ==> areas.ok(areas, len(fs.content(inputPath)))
+//@   ensures [C19 parse.fail] (err == nil) <==> parses(fs.content(inputPath))
+
+//@ func WriteFile
+//@   requires [C06 C19 write.areas] areas.ok(areas, len(fs.content(inputPath)))
+//@   modifies fs.content(inputPath)
+//@   ensures [C07 C19 write.noarea] err == nil && len(areas) == 0 ==> fs.content(inputPath) == old(fs.content(inputPath))
+//@   loop#0 invariant 0 <= i && i <= len(areas) && (sliceptr(contents) == 0 || fresh(sliceptr(contents)))
+//@   loop#0 invariant forall(j Int :: {areas[j]} 0 <= j && j < len(areas) - i ==> area.in(areas[j], len(contents)))
+//@   loop#0 invariant i == 0 ==> unsafeView(contents) == old(fs.content(inputPath))
+//@   loop#0 decreases len(areas) - i
+
+//@ func HandlePath
+//@   modifies nothing
+
+//@ func CopyFile
